@@ -22,6 +22,7 @@ from spyne.model.complex import ComplexModel, Array, Iterable
 from spyne.model.primitive import (Integer, Integer32, Unicode, Boolean, Double,
     Decimal, Date, DateTime, Time, Duration, Uuid)
 from spyne.model.binary import ByteArray
+from spyne.model.enum import Enum
 from spyne.protocol.soap import Soap11, Soap12
 from spyne.protocol.xml import XmlDocument
 from spyne.protocol.json import JsonDocument
@@ -122,12 +123,33 @@ def prim_specs():
             js=_t_dur),
         Spec('uuid', lambda: Uuid,
             lambda r: str(_uuid.UUID(int=r.getrandbits(128))), str, js=str),
+        Spec('enum', lambda: Enum('red', 'green', 'blue', type_name='Color'),
+            lambda r: r.choice(('red', 'green', 'blue')), lambda v: v),
         Spec('bytes', lambda: ByteArray,
             lambda r: bytes(bytearray(r.randint(0, 255)
                                          for _ in range(r.randint(1, 10)))),
             lambda v: base64.b64encode(v).decode('ascii'),
             js=lambda v: base64.b64encode(v).decode('ascii')),
     ]
+
+
+class MultiSpec(object):
+    """A primitive member that may occur several times (max_occurs > 1)."""
+    kind = 'multi'
+
+    def __init__(self, item):
+        self.item = item
+        self.name = 'multi_' + item.name
+        self.cls = None
+
+    def build(self):
+        if self.cls is None:
+            base = self.item.build() if self.item.cls is None else self.item.cls
+            self.cls = base.customize(max_occurs='unbounded')
+        return self.cls
+
+    def gen(self, rng):
+        return [self.item.gen(rng) for _ in range(rng.randint(0, 3))]
 
 
 class ComplexSpec(object):
@@ -260,6 +282,8 @@ class Universe(object):
         pfields.append(('a_inners', ArraySpec(self.inner)))
         ints = [s for s in prim_specs() if s.name == 'int'][0]
         pfields.append(('a_arr', ArraySpec(ints)))
+        multi_uni = [s for s in prim_specs() if s.name == 'uni'][0]
+        pfields.append(('a_multi', MultiSpec(multi_uni)))
         self.P = ComplexSpec('P', ns_p, pfields)
         for s in chosen:
             s.build()
@@ -331,6 +355,9 @@ class Universe(object):
                                   ('extra', s_u2)])
         self.item1.build()
         self.item2.build()
+        it_spec = ArraySpec(s_int)
+        it_spec.cls = Iterable(Integer)
+        M['total'] = Method('total', [('xs', it_spec)], s_int)
         M['item1'] = Method('item1', [('i', self.item1)], s_uni)
         M['item2'] = Method('item2', [('i', self.item2)], s_uni)
         M['pa'] = Method('pa', [('a', s_int)], None)
@@ -405,6 +432,11 @@ class Universe(object):
             ctl.hit('fn', 'strict')
             return _num(a) + (len(s) if isinstance(s, str) else 0)
 
+        def f_total(ctx, xs):
+            ctl.calls.append(('total', 'enter'))
+            ctl.hit('fn', 'total')
+            return sum(_num(x) for x in (xs or ()))
+
         def f_item1(ctx, i):
             ctl.calls.append(('item1', 'enter'))
             ctl.hit('fn', 'item1')
@@ -439,6 +471,7 @@ class Universe(object):
 
         ns = {}
         ns['strict'] = rpc(s_rng.cls, s_pat.cls, _returns=Integer)(f_strict)
+        ns['total'] = rpc(it_spec.cls, _returns=Integer)(f_total)
         ns['item1'] = rpc(self.item1.cls, _returns=Unicode)(f_item1)
         ns['item2'] = rpc(self.item2.cls, _returns=Unicode)(f_item2)
         ns['pa'] = rpc(Integer, _returns=PA)(f_pa)
@@ -634,6 +667,10 @@ def _xml_value(parent, ns, name, spec, value, nil=False):
                     _xml_value(el, cns, fn, fs, value[fn], nil)
                 elif nil and fs.kind == 'prim':
                     _xml_value(el, cns, fn, fs, None, nil)
+    elif spec.kind == 'multi':
+        for item in value:
+            etree.SubElement(parent, '{%s}%s' % (ns, name)).text = \
+                                                       spec.item.text(item)
     elif spec.kind == 'array':
         el = etree.SubElement(parent, '{%s}%s' % (ns, name))
         acls = spec.cls
@@ -658,7 +695,7 @@ def _dict_value(spec, value, wrappers, raw_bytes=False):
         if wrappers:
             return {spec.cls.get_type_name(): d}
         return d
-    if spec.kind == 'array':
+    if spec.kind in ('array', 'multi'):
         return [_dict_value(spec.item, v, wrappers, raw_bytes) for v in value]
     raise ValueError(spec.kind)
 
@@ -672,6 +709,9 @@ def _flat_value(out, prefix, spec, value):
         for fn, fs in spec.all_fields():
             if fn in value:
                 _flat_value(out, prefix + '.' + fn, fs, value[fn])
+    elif spec.kind == 'multi':
+        for item in value:
+            out.append((prefix, spec.item.text(item)))
     elif spec.kind == 'array':
         for i, item in enumerate(value):
             if spec.item.kind == 'prim':
